@@ -103,10 +103,18 @@ def _sel(d):
     return {"k": "inline", "on": tc["name"]["value"] if tc else None, "dirs": _dirs(d["directives"]), "sub": _sub(d["selection_set"])}
 
 
+class NotModelled(Exception):
+    """the document uses syntax the Lean document model does not carry (it is then checked by the direct oracle only)"""
+
+
 def doc_to_model(document):
     out = []
     for d in document.to_dict()["definitions"]:
         k = d["__kind__"]
+        if any(v.get("directives") for v in d.get("variable_definitions") or []):
+            raise NotModelled("variable-definition-directives")     # visited since 370692d
+        if k == "FragmentDefinition" and d.get("variable_definitions"):
+            raise NotModelled("fragment-variable-definitions")      # visited since 57ee286 (experimental syntax)
         if k == "OperationDefinition":
             out.append({"k": "op", "op": d["operation"], "name": d["name"]["value"] if d.get("name") else None,
                         "vars": [{"n": v["variable"]["name"]["value"], "t": _ty(v["type"]),
@@ -205,7 +213,11 @@ def run(ctx, collect):
         for (_, text, real, label, feature) in items:
             if real["outcome"].startswith("noparse"):
                 continue
-            m = text_to_model(text)
+            try:
+                m = text_to_model(text)
+            except NotModelled as e:
+                ctx.stat("model-does-not-cover:" + str(e))
+                continue
             docs.append({"doc": m})
             meta.append(("chain", text, real, label, feature, None))
             single = "+" not in label
